@@ -57,9 +57,9 @@ def parse_dist(line):
 
 def same_dist(a, b):
     if a[0] != b[0]:
-        # numpy turns 0/0 into nan and then fails the sum validation; the model reports divZero
-        return a[0] == "err" and b[0] == "err"
+        return False
     if a[0] == "err":
+        # numpy turns 0/0 into nan and then fails the validation; the model reports divZero
         return a[1] == b[1] or {a[1], b[1]} == {"divZero", "sumNotOne"}
     return a[1] == b[1] and a[3] == b[3] and allclose(a[2], b[2])
 
@@ -146,7 +146,7 @@ def correspondence(ctx):
             ctx.case(("marg", tuple(sh), tuple(p), tuple(rem)), nontrivial=len(rem) < k,
                      sample={"op": "marginalize", "shape": sh, "remain": rem})
         for r in range(1, k):
-            for idxs in itertools.combinations(range(k), r):
+            for idxs in (itertools.permutations(range(k), r) if t % 2 == 0 else itertools.combinations(range(k), r)):
                 for vals in itertools.product(*[range(sh[i]) for i in idxs]):
                     a = dist_repr(lambda: MultinomialDistribution(p.copy(), tuple(sh), eps_zero=eps)
                                   .conditionalize(list(idxs), list(vals)))
@@ -188,6 +188,10 @@ def correspondence(ctx):
          ("marg", "1/2,1/2", "2", EPS8, "1")),
         ("marg-dup", lambda: MultinomialDistribution(np.array([0.25] * 4), (2, 2)).marginalize([0, 0]),
          ("marg", "1/4,1/4,1/4,1/4", "2,2", EPS8, "0,0")),
+        ("marg-dup-before-range", lambda: MultinomialDistribution(np.array([0.25] * 4), (2, 2)).marginalize([0, 0, 5]),
+         ("marg", "1/4,1/4,1/4,1/4", "2,2", EPS8, "0,0,5")),
+        ("marg-range-before-dup", lambda: MultinomialDistribution(np.array([0.25] * 4), (2, 2)).marginalize([5, 0, 0]),
+         ("marg", "1/4,1/4,1/4,1/4", "2,2", EPS8, "5,0,0")),
         ("cond-len", lambda: MultinomialDistribution(np.array([0.25] * 4), (2, 2)).conditionalize([0], [0, 1]),
          ("cond", "1/4,1/4,1/4,1/4", "2,2", EPS8, "0", "0,1")),
         ("cond-idx", lambda: MultinomialDistribution(np.array([0.25] * 4), (2, 2)).conditionalize([0], [2]),
